@@ -29,7 +29,8 @@ LEVEL_TEXT = ("Unbounded proof, per site: for every list of elements and every p
               "record what held before the repairs. The inventory theorem ties the list of sites to the current source. "
               "Not proved: that the text written by DvMethod.get_source depends on the sets only through these sites "
               "(the decompiler as a whole is not modelled), the value-hash argument for sets of ints, and the Lengauer-Tarjan "
-              "bucket walk (class DominatorTree, covered by C18 and by the streams here). For those the check is an "
+              "bucket walk (dom_lt: modelled for C18, where the model gives the same table with its sets iterated in either order "
+              "on every graph of up to four nodes; beyond that covered by the comparisons of C18 and by the streams here). For those the check is an "
               "exploration: identical text under 4 (quick) / 8 (thorough) hash salts and in three fresh processes.")
 LEVEL_NOTE = ("Trusted: Coq kernel; the inventory translator tools/tr/setsites_tr.py with its syntactic notion of a set-typed "
               "expression and tools/tr/setsites_expected.json (classification of the 26 sites by reading); "
